@@ -128,6 +128,15 @@ static_assert(_MDSPAN_CPLUSPLUS >= MDSPAN_CXX_STD_14, "mdspan requires C++14 or 
 #  define _MDSPAN_NO_UNIQUE_ADDRESS
 #endif
 
+// Verification hook (off unless KOKKOS_MDSPAN_VERIF is defined): force the
+// base-class emulation of [[no_unique_address]] on compilers that do have the
+// attribute, so that the emulation path can be built and compared.
+#if defined(KOKKOS_MDSPAN_VERIF) && defined(KOKKOS_MDSPAN_VERIF_FORCE_NUA_EMULATION)
+#  undef _MDSPAN_USE_ATTRIBUTE_NO_UNIQUE_ADDRESS
+#  undef _MDSPAN_NO_UNIQUE_ADDRESS
+#  define _MDSPAN_NO_UNIQUE_ADDRESS
+#endif
+
 // AMDs HIP compiler seems to have issues with concepts
 // it pretends concepts exist, but doesn't ship <concept>
 #ifndef __HIPCC__
